@@ -68,13 +68,13 @@ CLAIMED.update({
     "C28": ("vm", "DESIGN.md §6 C28, §4.1",
             "deterministic simulation: seeded chain histories executed by a reference replica; receipt grammar, RFC 6962 receipts root, revert/panic output reset checked per transaction; differential run through the real MemoryClient for storage rollback",
             "Seeded search over generated programs (panics at arbitrary instructions, reverts inside nested calls, gas exhaustion); every completed script's receipts/outputs judged by an independent oracle; the real MemoryClient must leave storage untouched after reverted transactions. Sampling, not enumeration.",
-            VM_NOTE + " Receipt-limit (65 535) runs only in the thorough tier."),
+            VM_NOTE + " Receipt floods up to the 65 535 limit: 1 run in 1 200 (quick), 1 in 200 (thorough)."),
     "C29": ("vm", "DESIGN.md §6 C29, §4.1",
-            "deterministic simulation with fault injection: raw-byte and grammar programs single-stepped under a supervisor with storage I/O errors; no host panic, no Bug error, gas strictly decreasing per instruction under the default schedule",
-            "Each transaction is single-stepped (debugger as event loop) with pokes into writable registers and a storage fault at a seeded call; host panics/aborts/hangs are caught by the process supervisor. Sampling, not enumeration.",
+            "deterministic simulation with fault injection: raw-byte and grammar programs (boundary-sized operands, receipt floods) single-stepped or run uninterrupted under a process supervisor, on fresh and reused interpreters, with storage I/O errors; no host panic or abort, no Bug error, gas strictly decreasing per instruction under the default schedule",
+            "Three quarters of the transactions are single-stepped (debugger as event loop) with pokes into writable registers and a storage fault at a seeded call, one quarter runs through one uninterrupted transact; half of the runs keep one interpreter for all transactions; host panics are caught in-process, aborts and hangs by the process supervisor (and minimised in forked children). Sampling, not enumeration.",
             VM_NOTE + " A transaction rejected at initialisation with a CheckError (e.g. input balance overflow) counts as rejected, not executed."),
     "C31": ("vm", "DESIGN.md §6 C31, §4.1",
-            "deterministic simulation with crash/restart injection: replicated execution (fresh vs reused interpreter, dirty pooled memory, storage error/crash + rollback + retry, abandoned debug session) with replica agreement after every transaction",
+            "deterministic simulation with crash/restart injection: replicated execution (fresh vs reused interpreter, dirty pooled memory, storage error/crash + rollback + retry, abandoned debug session, the real long-lived MemoryClient over the whole history incl. refused transactions) with replica agreement after every transaction",
             "Replica agreement on (state, receipts, output transaction, storage digest) after every transaction of seeded histories; crashed replicas must agree after one retry. Sampling, not enumeration.",
             VM_NOTE),
     "C32": ("vm", "DESIGN.md §6 C32, §4.1",
@@ -87,8 +87,8 @@ OBS_NOTE = VM_NOTE + " The observer regains control between any two instructions
 CLAIMED.update({
     "C24": ("vm", "DESIGN.md §6 C24, §4.1",
             "deterministic simulation: observer replica single-steps generated call trees; whole-memory diff after every instruction against the ownership registers, plus panic-reason prediction for the load/store/copy family",
-            "Every byte changed by an instruction must lie in the frame's stack or heap region (before or after growth) or in the VM's own writes of that opcode (call frame + code, loaded code, balance entries, outputs); LB/LW/SB/SW/MCL/MCLI/MCP/MCPI/MEQ panics are predicted from the accessibility/ownership model; ALOC'd bytes must be zero. Sampling, not enumeration.",
-            OBS_NOTE + " Heap above 256 KiB is not diffed (counted)."),
+            "Every byte changed by an instruction must lie in the frame's stack or heap region (before or after growth) or in the VM's own writes of that opcode (call frame + code, loaded code, balance entries, outputs); LB/LW/LQW/LHW/SB/SW/SQW/SHW/MCL/MCLI/MCP/MCPI/MEQ/LOGD/RETD/S256/K256 panics are predicted from the accessibility/ownership model; ALOC'd bytes must be zero. Sampling, not enumeration.",
+            OBS_NOTE + " Steps taken while the stack or the heap exceeds 256 KiB are not diffed (counted)."),
     "C25": ("vm", "DESIGN.md §6 C25, §4.1",
             "deterministic simulation: observer replica single-steps generated programs with loops, JAL subroutines and boundary-biased jump operands; $pc compared after every instruction with an unbounded-integer model of the 12 jump instructions, CALL entry and return targets",
             "Per step: taken/untaken target, MemoryOverflow iff the target leaves memory, link register, +4 for every other completed instruction, execution only inside [$is,$ssp), fetch panics only outside it. Sampling, not enumeration.",
@@ -99,7 +99,7 @@ CLAIMED.update({
             OBS_NOTE + " Scope: script transactions; predicate execution cannot reach contract tables by type (PredicateStorage) and is exercised by C20's engine."),
     "C34": ("vm", "DESIGN.md §6 C34, §4.1",
             "deterministic simulation: observer replica snapshots registers and the caller's memory region at every CALL and compares at the matching return; call frame bytes and the callee's first state are decoded and checked",
-            "Frame layout (callee id, asset id, saved registers, code size, a, b), callee $fp/$ssp/$sp/$is/$pc/$bal/$flag, register restore except $cgas/$ggas/$ret/$retl/$hp with $pc+4, caller region byte-identical, callee heap readable after return. Sampling, not enumeration.",
+            "CALL itself leaves the caller's region untouched and places the frame at the caller's $sp; frame layout (callee id, asset id, saved registers, code size, a, b); copied code == stored bytecode + zero padding; callee $fp/$ssp/$sp/$is/$pc/$bal/$flag; register restore except $cgas/$ggas/$ret/$retl/$hp with $pc+4, caller region byte-identical, $hp unchanged by the return itself, callee heap readable after return. Sampling, not enumeration.",
             OBS_NOTE),
 })
 
@@ -113,7 +113,7 @@ CLAIMED.update({
 CLAIMED.update({
     "C26": ("vm", "DESIGN.md §6 C26, §4.1",
             "deterministic simulation with gas-exhaustion injection: observer replica single-steps generated call trees under default / unit / randomized-distinct / sparse-zero gas schedules and drawn gas limits; an independent schedule evaluator predicts the ordered charges of every instruction",
-            "Per step: $cgas ≤ $ggas, $ggas never increases, consumed gas == sum of the prescribed charges (fixed, dependent, storage hot/cold read, write, new-byte, new-balance-entry stages), out-of-gas zeroes $cgas and takes exactly the remaining context gas, other panics consume a prefix of the stages; CALL forwarding = min(requested, remaining) with the remainder saved in the frame; unspent gas credited on return; ScriptResult.gas_used == limit − $ggas. Sampling, not enumeration.",
+            "Per step: $cgas ≤ $ggas, $ggas never increases, consumed gas == sum of the prescribed charges (fixed, dependent, storage hot/cold read — hotness from the monitor's own set of touched slots, not from the VM's cache —, write, new-byte, new-balance-entry stages), out-of-gas zeroes $cgas and takes exactly the remaining context gas, other panics consume a prefix of the stages; CALL forwarding = min(requested, remaining) with the remainder saved in the frame; unspent gas credited on return; ScriptResult.gas_used == limit − $ggas. Sampling, not enumeration.",
             OBS_NOTE + " The opcode→cost-field table is transcribed from the pinned implementation and the fuel-asm documentation (the FuelVM specification is not available offline) and frozen in /verif; ECAL's cost is the host handler's."),
     "C27": ("vm", "DESIGN.md §6 C27, §4.1",
             "deterministic simulation with fault injection: observer replica matches every Transfer / TransferOut / Call / Mint / Burn / MessageOut receipt with the balance movement seen at the storage seam and through the verif_balances hook, checks the in-memory balance table against the internal free balances after every step, and closes a per-asset ledger equation at the end of every transaction",
